@@ -167,7 +167,7 @@ def _case(draw):
     algo = draw(st.sampled_from(["ext_spfs", "superdtl"]))
     op, sp = draw(st.sampled_from([(1, 0), (0, 1), (1, 1), (2, 0)]))
     case = draw(gen.rec_case(max_obj=4, max_sp=4, min_obj=3, min_sp=1, costs="coherent", labelled=True, max_fam=3,
-                             obj_poly=op, sp_poly=sp, allow_inconsistent=(algo == "ext_spfs"), prescribed_root=(algo == "ext_spfs")))
+                             obj_poly=op, sp_poly=sp, allow_inconsistent=(algo == "ext_spfs"), prescribed_root=(algo == "ext_spfs"), prescribed_odds=(1, 2)))
     case["_algo"] = algo
     case["_kind"] = "solve"
     # colours on arbitrary nodes and blanked ancestor names (by pre-order position), applied by _decorate
